@@ -174,6 +174,9 @@ func Census(fns []*ssa.Function, kinds map[string]bool) []PPO {
 	want := func(k string) bool { return kinds == nil || kinds[k] }
 	var out []PPO
 	for _, f := range fns {
+		if IsPanicHelper(f) {
+			continue // the obligation is carried by the helper's call sites
+		}
 		ord := map[string]int{}
 		add := func(in ssa.Instruction, kind, desc string, op ssa.Value) {
 			base := shortName(f) + "/" + kind + ":" + desc
@@ -184,6 +187,11 @@ func Census(fns []*ssa.Function, kinds map[string]bool) []PPO {
 			for _, in := range b.Instrs {
 				switch x := in.(type) {
 				case *ssa.Panic:
+					if k, ok := x.X.(*ssa.MakeInterface); ok {
+						if cst, ok := k.X.(*ssa.Const); ok && cst.Value != nil && strings.Contains(cst.Value.ExactString(), "blocking select matched no case") {
+							continue // emitted by the SSA builder after a select without default: not source code
+						}
+					}
 					if want("panic") {
 						add(in, "panic", panicDesc(x.X, tr), x.X)
 					}
@@ -463,6 +471,39 @@ func AutoDischarge(p *PPO) {
 		}
 		if k, ok := ConstInt(idx); ok && DominatingGuard(f, p.Instr, func(cd *Cond) int { return lenGtEdge(cd, base, k) }) {
 			p.Discharged, p.Why = true, "constant index dominated by a len(base) test"
+			return
+		}
+		// i < len(A) and len(A) == len(base), both dominating
+		if NonNeg(idx, 0) {
+			for _, i := range Ifs(f) {
+				cd, ok := Classify(i)
+				if !ok || cd.Kind != "eq" {
+					continue
+				}
+				var other ssa.Value
+				lenArg := func(v ssa.Value) ssa.Value {
+					if c, ok := stripConv(v).(*ssa.Call); ok && CalleeName(c.Common()) == "builtin:len" {
+						return c.Call.Args[0]
+					}
+					return nil
+				}
+				a, b := lenArg(cd.X), lenArg(cd.Y)
+				switch {
+				case a != nil && b != nil && sameStorage(a, base):
+					other = b
+				case a != nil && b != nil && sameStorage(b, base):
+					other = a
+				default:
+					continue
+				}
+				if len(Guarded(f, []Edge{cd.EdgeWhen(true)}, []ssa.Instruction{p.Instr})) != 0 {
+					continue
+				}
+				if DominatingGuard(f, p.Instr, func(c2 *Cond) int { return ltLenEdge(c2, idx, other) }) {
+					p.Discharged, p.Why = true, "index is below len(A) and a dominating test established len(A) == len(base)"
+					return
+				}
+			}
 		}
 	case "assert":
 		// dominated by a comma-ok assertion of the same value to the same type
@@ -503,6 +544,30 @@ func AutoDischarge(p *PPO) {
 		}
 	case "slice":
 		sl := p.Instr.(*ssa.Slice)
+		// s[:i] / s[i:] with i = strings.Index*(s, …): in range exactly when i >= 0
+		for _, bnd := range []ssa.Value{sl.Low, sl.High} {
+			if bnd == nil {
+				continue
+			}
+			if _, isConst := ConstInt(bnd); isConst {
+				continue
+			}
+			call, ok := stripConv(bnd).(*ssa.Call)
+			if !ok || !strings.HasPrefix(CalleeName(call.Common()), "strings.Index") && !strings.HasPrefix(CalleeName(call.Common()), "strings.LastIndex") && !strings.HasPrefix(CalleeName(call.Common()), "bytes.Index") {
+				return
+			}
+			if len(call.Call.Args) == 0 || !sameStorage(call.Call.Args[0], sl.X) {
+				return
+			}
+			if !DominatingGuard(f, p.Instr, func(cd *Cond) int { return ordEdge(cd, bnd, ">=", 0) }) {
+				p.Why = "bound is the result of " + CalleeName(call.Common()) + ", which is -1 when nothing is found, and no i >= 0 test dominates the slice expression"
+				return
+			}
+		}
+		if (sl.Low == nil || !isConstV(sl.Low)) && (sl.High == nil || !isConstV(sl.High)) && !(sl.Low == nil && sl.High == nil) {
+			p.Discharged, p.Why = true, "bounds are strings.Index results of the sliced string, each dominated by an i >= 0 test"
+			return
+		}
 		if sl.High == nil && sl.Max == nil && sl.Low != nil {
 			if k, ok := ConstInt(sl.Low); ok && k > 0 && DominatingGuard(f, p.Instr, func(cd *Cond) int { return lenGtEdge(cd, sl.X, k-1) }) {
 				p.Discharged, p.Why = true, "constant low bound dominated by a len(base) test"
@@ -541,6 +606,8 @@ func ordEdge(cd *Cond, v ssa.Value, rel string, k int64) int {
 	}
 	return -1
 }
+
+func isConstV(v ssa.Value) bool { _, ok := ConstInt(v); return ok }
 
 func stripConv(v ssa.Value) ssa.Value {
 	for {
@@ -610,10 +677,14 @@ func sameStorage(a, b ssa.Value) bool {
 	return false
 }
 
-// fieldStoredBefore: some store to the same field of the same base may execute before one of the two loads
-// (stores that both loads dominate come later and cannot separate them).
+// fieldStoredBefore: some store to the same field of the same base can execute between the two loads
+// (on a path from the first to the second).
 func fieldStoredBefore(fa *ssa.FieldAddr, la, lb *ssa.UnOp) bool {
 	f := fa.Parent()
+	first, second := ssa.Instruction(la), ssa.Instruction(lb)
+	if canFollow(second, first) && !canFollow(first, second) {
+		first, second = second, first
+	}
 	for _, b := range f.Blocks {
 		for _, in := range b.Instrs {
 			st, ok := in.(*ssa.Store)
@@ -624,9 +695,48 @@ func fieldStoredBefore(fa *ssa.FieldAddr, la, lb *ssa.UnOp) bool {
 			if !ok || x.X != fa.X || x.Field != fa.Field {
 				continue
 			}
-			if !(instrBefore(la, st) && instrBefore(lb, st)) {
+			if canFollow(first, st) && canFollow(st, second) {
 				return true
 			}
+		}
+	}
+	return false
+}
+
+// canFollow: b can execute after a on some path.
+func canFollow(a, b ssa.Instruction) bool {
+	ba, bb := a.Block(), b.Block()
+	if ba == bb {
+		for _, in := range ba.Instrs {
+			if in == a {
+				return true
+			}
+			if in == b {
+				// b precedes a in the block: b follows a only around a cycle
+				return reaches(successorOrSelf(ba), ba, map[*ssa.BasicBlock]bool{}) && onCycle(ba)
+			}
+		}
+		return false
+	}
+	for _, s := range ba.Succs {
+		if reaches(s, bb, map[*ssa.BasicBlock]bool{}) {
+			return true
+		}
+	}
+	return false
+}
+
+func successorOrSelf(b *ssa.BasicBlock) *ssa.BasicBlock {
+	if len(b.Succs) > 0 {
+		return b.Succs[0]
+	}
+	return b
+}
+
+func onCycle(b *ssa.BasicBlock) bool {
+	for _, s := range b.Succs {
+		if reaches(s, b, map[*ssa.BasicBlock]bool{}) {
+			return true
 		}
 	}
 	return false
